@@ -5,12 +5,14 @@ import (
 	stdjson "encoding/json"
 	"fmt"
 	"io"
+	"strings"
 	"testing"
 
 	"github.com/ipld/go-ipld-prime/codec/dagjson"
 	ipldjson "github.com/ipld/go-ipld-prime/codec/json"
 	"github.com/ipld/go-ipld-prime/datamodel"
 	"github.com/ipld/go-ipld-prime/multicodec"
+	"github.com/ipld/go-ipld-prime/node/basicnode"
 	"pgregory.net/rapid"
 
 	"verif/evid"
@@ -26,7 +28,15 @@ type C04Case struct {
 	Perm []byte `json:"perm"`
 	Prog []byte `json:"prog"`
 	Impl string `json:"impl"`
+	// Before: texts decoded first, results ignored (mostly inputs the decoder refuses, some midway through a
+	// look-ahead): the round trip that follows must not depend on what the decoder saw before
+	Before []string `json:"before,omitempty"`
+	// Wide > 0: the value is wrapped as the last element of a list of Wide copies of small containers
+	Wide int `json:"wide,omitempty"`
 }
+
+var c04BeforeTexts = []string{`{"/":"not a cid"}`, `{"/":{"bytes":"!!!"}}`, `{"/":`, `{"/":{"bytes":`, `{"/":{"bytes":"AA"`, `{"/":{"bytes":"AA"},`, `{"/":"bafkqaaa"`, `[1,`, `{"a":1,"a":2}`,
+	`{"/":{"bytes":"AA","x":1}}`, `{"/":"QmXNh4MHXRFhmv4W3LkdFHK2JgaV5qBqfXkxwUD5oApqCT","x":1}`, `1e999999`, `"\ud800"`, `nul`, `[1] x`, `{"/":{"bytes":5}}`, `{"/":{"/":"x"}}`, ``, `{`, `{"/":{"bytes":"AQID"}}`}
 
 func encDagJson(n datamodel.Node) ([]byte, error) {
 	var buf bytes.Buffer
@@ -97,7 +107,30 @@ func jsonKeysAscending(text []byte) error {
 }
 
 func c04Check(c C04Case, rec *evid.Rec) error {
+	for _, text := range c.Before {
+		for _, np := range []datamodel.NodePrototype{basicnode.Prototype.Any, basicnode.Prototype.Map} {
+			nb := np.NewBuilder()
+			if err := evid.Guard("dagjson.Decode", func() error { return dagjson.Decode(nb, strings.NewReader(text)) }); err != nil && strings.HasPrefix(err.Error(), "PANIC") {
+				return fmt.Errorf("decoding %q: %v", text, err)
+			}
+		}
+	}
 	v := c.V
+	if c.Wide > 0 {
+		// a wide, shallow list whose elements are containers: nesting depth stays 3 however wide it is
+		items := make([]val.V, 0, c.Wide+1)
+		for i := 0; i < c.Wide; i++ {
+			switch i % 3 {
+			case 0:
+				items = append(items, val.MkMap(val.Ent{K: "i", V: val.MkInt(int64(i))}))
+			case 1:
+				items = append(items, val.MkList(val.MkInt(int64(i))))
+			default:
+				items = append(items, val.MkBytes([]byte{byte(i)}))
+			}
+		}
+		v = val.V{K: val.List, Items: append(items, v)}
+	}
 	if known.Active("C04-integral-float") {
 		// steer around the listed finding: integral-valued floats lose their kind (or fail to decode)
 		if w, changed := val.ShiftIntegralFloats(v); changed {
@@ -209,15 +242,22 @@ func clipText(b []byte) string {
 
 var c04Part = evid.Part[C04Case]{
 	Prop: "C04", Name: "roundtrip", Quick: 4000, Thorough: 400000,
-	Rule: "DAG-JSON-expressible value (int64, finite floats, valid UTF-8, bytes, links; reserved shapes excluded by construction) × insertion permutation × builder program × implementation; non-trivial = contains a float, bytes, link, a key needing an escape or non-ASCII, or a map whose insertion order differs from sorted order; distinct by (output text, implementation)",
+	Rule: "DAG-JSON-expressible value (int64, finite floats, valid UTF-8, bytes, links; reserved shapes excluded by construction) × insertion permutation × builder program × implementation, optionally as the last element of a 1000..2100-wide list of small containers, optionally after decoding 1-3 texts the decoder refuses (results ignored: the round trip must not depend on what the decoder saw before); non-trivial = contains a float, bytes, link, a key needing an escape or non-ASCII, or a map whose insertion order differs from sorted order; distinct by (output text, implementation)",
 	Gen: func(t *rapid.T) C04Case {
 		p := val.Profile{MaxDepth: 4, MaxWidth: 5, Wide: true, Float: true, Bytes: true, Links: true, Null: true, JSONSafe: true, UTF8Only: true}
-		return C04Case{
+		c := C04Case{
 			V:    val.DrawV(t, &p, "v"),
 			Perm: rapid.SliceOfN(rapid.Byte(), 0, 24).Draw(t, "perm"),
 			Prog: rapid.SliceOfN(rapid.Byte(), 0, 24).Draw(t, "prog"),
 			Impl: string(rapid.SampledFrom(nodes.Impls).Draw(t, "impl")),
 		}
+		if rapid.IntRange(0, 3).Draw(t, "hasbefore") == 0 {
+			c.Before = rapid.SliceOfN(rapid.SampledFrom(c04BeforeTexts), 1, 3).Draw(t, "before")
+		}
+		if rapid.IntRange(0, 59).Draw(t, "wide") == 0 {
+			c.Wide = rapid.SampledFrom([]int{1000, 1022, 1023, 1024, 1025, 1500, 2100}).Draw(t, "widen")
+		}
+		return c
 	},
 	Check: c04Check,
 }.Reg()
